@@ -8,7 +8,7 @@
                         that were missing on its path *)
 From Coq Require Import List NArith Bool Permutation.
 Import ListNotations.
-Require Import V.C38.Spec V.C38.Rows V.C37.Model V.C37.Proofs V.C37.Create.
+Require Import V.C38.Spec V.C38.Rows V.C37.Model V.C37.Proofs V.C37.Create V.C37.Clauses V.C37.Tie V.C37.Tie2.
 Open Scope N_scope.
 
 (* rows after = rows before + the new object and the missing containers on its path (each a non-empty
@@ -70,7 +70,7 @@ Proof. exact spec_set_exact. Qed.
 Theorem C37_set_value_exact_or_case :
   forall c v, (keyword_attr c = false -> norm_value c v = v)
               /\ map lower_ascii (norm_value c v) = map lower_ascii v.
-Proof. intros c v. split; [apply norm_value_exact | apply norm_value_case]. Qed.
+Proof. exact set_value_exact_or_case. Qed.
 
 (* ... and every other object, every other attribute of the target and every connection is unchanged *)
 Theorem C37_spec_set_frames_others :
@@ -101,6 +101,28 @@ Proof. exact spec_set_edge_exact. Qed.
 Theorem C37_set_value_survives_quoting :
   forall v, read_back v = Some v.
 Proof. exact set_value_survives_quoting. Qed.
+
+(* the executable clauses (codes 10-15) that Check.v evaluates on the IMPLEMENTATION's before / after
+   projections hold on the specification's own output, for every graph that passes the executable
+   well-formedness test (code 2): Set on objects, Set on connections, Create of objects *)
+Theorem C37_spec_satisfies_clauses_set_obj :
+  forall g t c v g' tp,
+    wf_b g = true -> spec_set_obj g t c v = Some g' -> path_of (rows g) t = Some tp ->
+    cl_set_obj (prows g) (pedges g) (prows g') (pedges g') tp c v = [].
+Proof. exact clauses_set_obj. Qed.
+
+Theorem C37_spec_satisfies_clauses_set_edge :
+  forall g l c v g' e0 ti,
+    wf_b g = true -> spec_set_edge g l c v = Some g' ->
+    find_edge l (g_edges g) = Some e0 -> eid_of g e0 = Some ti ->
+    cl_set_edge (prows g) (pedges g) (prows g') (pedges g') ti c v = [].
+Proof. exact clauses_set_edge. Qed.
+
+Theorem C37_spec_satisfies_clauses_create_obj :
+  forall g key unq ret g',
+    wf_b g = true -> spec_create_object g key unq = Some (ret, g') ->
+    cl_create_obj (prows g) (pedges g) (prows g') (pedges g') ret = [].
+Proof. exact clauses_create_obj. Qed.
 
 (* non-vacuity *)
 Definition ex_g : graph :=
@@ -134,3 +156,6 @@ Print Assumptions C37_set_value_exact_or_case.
 Print Assumptions C37_spec_set_frames_others.
 Print Assumptions C37_spec_set_edge_exact_and_frames.
 Print Assumptions C37_set_value_survives_quoting.
+Print Assumptions C37_spec_satisfies_clauses_set_obj.
+Print Assumptions C37_spec_satisfies_clauses_set_edge.
+Print Assumptions C37_spec_satisfies_clauses_create_obj.
